@@ -235,7 +235,7 @@ theorem ctorWith_spec (c : Cfg) (i : Nat) (a : AllocId) (es : List Ext) (constru
       (fun s' => s0.fuel ≠ none ∧ s'.arrs.length = s.arrs.length ∧ Good c s') T := by
   obtain ⟨hlt, hi⟩ := vacant_iff.mp hvac
   unfold ctorWith
-  apply Out.bind (build_out (T := T) c a (nElems es) construct rowLen s hct)
+  apply Out.bind (build_out (T := T) c a (nElems es) construct rowLen s hfx hct)
   · intro p s1 hb
     apply Out.mono (setSlot_out i _ s1) _ (fun _ h => h) id
     intro _ s2 h2
@@ -250,8 +250,7 @@ theorem ctorWith_spec (c : Cfg) (i : Nat) (a : AllocId) (es : List Ext) (constru
       show InvA c s2.blocks s2.arrs
       rw [h2.blocks, harrs]
       exact hb.installA hI hA rfl rfl (eqv_refl c a)
-  · intro s1 ⟨hfu, hcl⟩
-    have hcl' := hcl hfx
+  · intro s1 ⟨hfu, hcl'⟩
     exact ⟨h0.armed hfu, by rw [hcl'.1], hcl'.inv hI, by rw [hcl'.1]; exact hW⟩
 
 theorem get_bind {α : Type} (f : St → M α) (s : St) : (get >>= f) s = f s s := rfl
@@ -302,7 +301,7 @@ theorem opCtorCopy_out (c : Cfg) (hok : c.OK) (i j : Nat) (a : Option AllocId) (
   generalize pickAlloc a (c.select y.alloc) = al
   apply Out.bind (readSrc_out (Q := fun _ => False) c j y.n y s hI hj (Nat.le_refl _)) _ (fun _ h => h.elim)
   intro _ s1 h1; subst h1
-  apply Out.bind (build_out (T := T) c al y.n true 0 s1 (by intro h; cases h))
+  apply Out.bind (build_out (T := T) c al y.n true 0 s1 hfx (by intro h; cases h))
   · intro p s2 hb
     apply Out.mono (setSlot_out i _ s2) _ (fun _ h => h) id
     intro _ s3 h3
@@ -317,8 +316,7 @@ theorem opCtorCopy_out (c : Cfg) (hok : c.OK) (i j : Nat) (a : Option AllocId) (
       show InvA c s3.blocks s3.arrs
       rw [h3.blocks, harrs]
       exact hb.installA hI hA rfl rfl (eqv_refl c al)
-  · intro s2 ⟨hfu, hcl⟩
-    have hcl' := hcl hfx
+  · intro s2 ⟨hfu, hcl'⟩
     exact ⟨hfu, by rw [hcl'.1], hcl'.inv hI, by rw [hcl'.1]; exact hW⟩
 
 theorem ctorCopy_spec (c : Cfg) (hok : c.OK) (i j : Nat) (s : St) (hG : Good c s)
